@@ -38,6 +38,16 @@ impl Shard {
         // Clone shared state before moving ctx
         let flush_lock = ctx.flush_coordination_lock.clone();
         let segment_ids = ctx.segment_ids.clone();
+        #[cfg(feature = "verif-hooks")]
+        crate::verif_hooks::register_shard(crate::verif_hooks::ShardHandles {
+            id,
+            base_dir: base_dir.clone(),
+            wal_dir: wal_dir.clone(),
+            flush_lock: flush_lock.clone(),
+            segment_ids: segment_ids.clone(),
+            passive_buffers: ctx.passive_buffers.clone(),
+            inflight_segments: ctx.inflight_segments.clone(),
+        });
 
         info!(
             target: "shard::types",
